@@ -290,7 +290,13 @@ func (g *G) searchOpts(cmd string) []arg {
 	n := g.intn("nopts", 0, 3)
 	usedLimit, usedCursor, usedSparse, usedOrder := false, false, false, false
 	for i := 0; i < n; i++ {
-		switch g.intn("opt", 0, 12) {
+		switch g.intn("opt", 0, 13) {
+		case 13:
+			// a live fence: the connection leaves request/reply mode (run on fresh connections)
+			if cmd != "scan" && cmd != "search" && !usedCursor {
+				usedCursor = true
+				out = append(out, kw("FENCE"))
+			}
 		case 0:
 			if !usedCursor && !usedSparse {
 				usedCursor = true
